@@ -99,6 +99,14 @@ class UniSuite(Suite):
         for cu in list(range(0, 0x10000, 97)) + [0x7F, 0x80, 0x7FF, 0x800, 0xD7FF, 0xE000, 0xFFFF]:
             txt = b'{"k' + spell(cu, cu % 3) + b'z":"a' + spell(cu, (cu + 1) % 3) + b'b"}'
             cases.append(Case("jsonde %d 0 10 %s" % (cb, txt.hex()), kind="pos", cu=cu))
+        # "at any position": escapes at every offset around the growth steps of the string builder (31, 63, 127, 255 bytes), in a string and in a key
+        for off in list(range(26, 34)) + list(range(58, 66)) + list(range(122, 130)) + list(range(250, 258)):
+            for cu, lo in ((0xE9, None), (0x20AC, None), (0x7FF, None), (0x800, None), (0xFFFF, None), (0xD83D, 0xDE00), (0xDBFF, 0xDFFF), (0xD800, 0xDC00)):
+                esc = spell(cu, off % 3) + (spell(lo, (off + 1) % 3) if lo is not None else b"")
+                want = gens.utf8(cu if lo is None else 0x10000 + ((cu - 0xD800) << 10) + (lo - 0xDC00))
+                pre = bytes([0x61 + (j % 26) for j in range(off)])
+                cases.append(Case("jsonde %d 0 10 %s" % (cb, (b'"' + pre + esc + b'tail"').hex()), kind="offset", want="S" + (pre + want + b"tail").hex()))
+                cases.append(Case("jsonde %d 0 10 %s" % (cb, (b'{"' + pre + esc + b'":1}').hex()), kind="offset", want="{" + (pre + want).hex() + ":U1}"))
         # surrogate pairs
         if tier == "thorough":
             his = range(0xD800, 0xDC00)
@@ -151,6 +159,10 @@ class UniSuite(Suite):
             want = "Ok {6b%s7a:S61%s62}" % (u, u)
             if " ".join(f[:2]) != want:
                 return ("uni:position", "\\u%04x inside key/string decoded to '%s', expected '%s'" % (cu, " ".join(f[:2]), want))
+        elif k == "offset":
+            want = "Ok " + case.meta["want"]
+            if " ".join(f[:2]) != want:
+                return ("uni:offset", "an escape after %d bytes decoded to '%s', expected '%s'" % ((len(case.line.split(" ")[-1]) // 2), " ".join(f[:2])[:80], want[:80]))
         elif k == "pair":
             cp = 0x10000 + ((case.meta["hi"] - 0xD800) << 10) + (case.meta["lo"] - 0xDC00)
             want = "Ok S%s" % gens.utf8(cp).hex()
@@ -1182,6 +1194,8 @@ class FilterSuite(Suite):
         u = [x for x in f if x.startswith("requ:")]
         ucode = u[0].split(":")[1] if u else ("Ok" if m.get("requc", 0) == 0 else "error") if "requc" in m else "?"
         after_error = ":unfiltered-run-stopped-at-an-error" if ucode not in ("Ok", "?") else ""
+        if not getattr(self, "memory_clause", True):
+            m = {}            # used by properties that are not about memory (the memory clause is C11's, with its known findings)
         # memory clause, three measures from the allocator ledger: high-water mark of bytes held, bytes held at the end, total bytes requested
         if "reqpk" in m and m["reqpk"] > m["reqpku"]:
             return ("filter:memory" + after_error, "filtered run (%s) held up to %d bytes, unfiltered run (%s) %d bytes: %s" % (f[0], m["reqpk"], ucode, m["reqpku"], case.line[:140]))
@@ -2092,12 +2106,30 @@ class ConvSuite(Suite):
                 # a copied string cannot be longer than the string-length field allows (65535 by default): longer ones are given by address
                 t = (rng.choice("SL") if len(txt) <= 65000 else "L") + txt.encode().hex()
                 cases.append(Case("conv %d t:%s" % (cb, t), term=t, want_int=iv, want_double=dv))
+        # every binary step of the powers-of-ten scaling: decimal exponents whose bits 0..8 are set one at a time and together (positive and negative), as strings
+        for txt, dv in [("12345678e%d" % e, 12345678.0 * 10.0 ** e) for e in (1, 2, 4, 8, 16, 32, 64, 128, 129, 200, 255, 256, 290)] + \
+                       [("12345678e-%d" % e, 12345678.0 / 10.0 ** e) for e in (1, 2, 4, 8, 16, 32, 64, 128, 129, 200, 255, 256, 300)] + \
+                       [("17976931348623157e127", 1.7976931348623157e143), ("123456789" + "0" * 130, 1.23456789e138), ("0." + "0" * 140 + "25", 2.5e-141)]:
+            iv = int(Fraction(txt.split("e")[0]) * Fraction(10) ** int(txt.split("e")[1])) if "e" in txt and abs(dv) < 2.0 ** 64 else 0
+            t = rng.choice("SL") + txt.encode().hex()
+            cases.append(Case("conv %d t:%s" % (cb, t), term=t, want_int=iv if abs(dv) < 2.0 ** 63 else 0, want_double=dv, tol=1e-13))
+        # strings that are NOT numbers because of one byte next to the digits in the code table ('/' and ':' ... '?'): every arithmetic reading is 0
+        for bad in "/:;<=>?":
+            for txt in ("12%s30" % bad, "%s%s1" % (bad, bad), "7%s" % bad, "1e%s" % bad, "+%s1" % bad, "0.%s5" % bad, "%s" % bad, "1%s" % bad * 5):
+                t = rng.choice("SL") + txt.encode().hex()
+                cases.append(Case("conv %d t:%s" % (cb, t), term=t, not_a_number=True))
         return cases
 
     def oracle(self, case, h):
         o = Suite.oracle(self, case, h)
         if o:
             return (o[0] + (":linked-string" if case.meta["term"][0] == "L" else ""), o[1] + " on " + case.line[:80])
+        if case.meta.get("not_a_number"):
+            f0 = dict(x.split("=") for x in h.split(" ") if "=" in x)
+            bad = [k for k in ("i8", "u8", "i16", "u16", "i32", "u32", "i64", "u64") if int(f0[k]) != 0] + [k for k in ("f", "d") if int(f0[k], 16) != 0]
+            if bad:
+                return ("conv:not-a-number", "the string %r is not a number but as<%s>() gives %s" % (bytes.fromhex(case.meta["term"][1:]), bad[0], f0[bad[0]]))
+            return None
         if "ALIAS-MISMATCH" in h:
             return ("conv:alias", "long/int/short/char spellings disagree with the fixed-width type of the same size: " + case.line)
         f = dict(x.split("=") for x in h.split(" ") if "=" in x)
@@ -2106,7 +2138,7 @@ class ConvSuite(Suite):
         if "want_int" in case.meta:
             iv, dv = case.meta["want_int"], case.meta["want_double"]
             got_d = struct.unpack("<d", struct.pack("<Q", int(f["d"], 16)))[0]
-            okd = (got_d == dv) if dv in (0.0, float("inf")) else abs(got_d - dv) <= 1e-12 * abs(dv)
+            okd = (got_d == dv) if dv in (0.0, float("inf")) else abs(got_d - dv) <= case.meta.get("tol", 1e-12) * abs(dv)
             if not okd:
                 return ("conv:long-string", "as<double>() on a numeric string of %d characters denoting %r gives %r" % (len(t) // 2, dv, got_d))
             for name, (lo, hi) in {"i8": (-128, 127), "u8": (0, 255), "i32": (-2 ** 31, 2 ** 31 - 1), "u64": (0, 2 ** 64 - 1), "i64": (-2 ** 63, 2 ** 63 - 1)}.items():
